@@ -42,23 +42,19 @@ CONTRACTS = {
         requires=["nodes_keyed_by_name(self)"],
         imports={"END": "hypergraph.nodes.gate"},
         ensures=[
-            # gamma controls n  <=>  gamma is a gate of this graph, n is one of its targets and n is a node
-            "forall_keys(lambda n: all(g in self._nodes and is_gate(self._nodes[g]) and n in self._nodes[g].targets and n in self._nodes for g in (result[n] if n in result else [])), result)",
-            "forall_keys(lambda g: g not in self._nodes or not is_gate(self._nodes[g]) or all(t is END or t not in self._nodes or (t in result and g in result[t]) for t in self._nodes[g].targets), self._nodes)",
+            # every recorded controller g of n is a gate of this graph with n among its targets, and n is a node
+            "forall_keys(lambda n: n not in result or all(g in self._nodes and is_gate(self._nodes[g]) and n in self._nodes[g].targets and n in self._nodes for g in result[n]), result)",
+            # and every gate is recorded for each of its targets that is a node
+            "all(not is_gate(gn) or all(t is END or t not in self._nodes or (t in result and gn.name in result[t]) for t in gn.targets) for gn in self._nodes.values())",
         ],
         modifies=[],
         loops=[
-            {"invariant": [
-                "forall_keys(lambda n: all(g in self._nodes and is_gate(self._nodes[g]) and n in self._nodes[g].targets and n in self._nodes for g in (controlled_by[n] if n in controlled_by else [])), controlled_by)",
-                "forall_keys(lambda g: g not in _keys[:_i] or not is_gate(self._nodes[g]) or all(t is END or t not in self._nodes or (t in controlled_by and g in controlled_by[t]) for t in self._nodes[g].targets), self._nodes)",
-            ]},
-            {"invariant": [
-                "forall_keys(lambda n: all(g in self._nodes and is_gate(self._nodes[g]) and n in self._nodes[g].targets and n in self._nodes for g in (controlled_by[n] if n in controlled_by else [])), controlled_by)",
-                "forall_keys(lambda g: g not in _keys0[:_i0] or not is_gate(self._nodes[g]) or all(t is END or t not in self._nodes or (t in controlled_by and g in controlled_by[t]) for t in self._nodes[g].targets), self._nodes)",
-                "all(t is END or t not in self._nodes or (t in controlled_by and node.name in controlled_by[t]) for t in _seq[:_i])",
-            ]},
+            # the body appends to lists created by this call (values of the local map): frame "non-entry"
+            {"modifies": "non-entry", "invariant": ["forall_keys(lambda n: n not in controlled_by or all(g in self._nodes and is_gate(self._nodes[g]) and n in self._nodes[g].targets and n in self._nodes for g in controlled_by[n]), controlled_by)", "all(not is_gate(gn) or all(t is END or t not in self._nodes or (t in controlled_by and gn.name in controlled_by[t]) for t in gn.targets) for gn in _seq[:_i])", "forall_keys(lambda n: n not in controlled_by or is_new(controlled_by[n]), controlled_by)", "forall_keys(lambda a: forall_keys(lambda b: a not in controlled_by or b not in controlled_by or a == b or controlled_by[a] is not controlled_by[b], controlled_by), controlled_by)", "is_new(controlled_by)"]},
+            {"modifies": "non-entry", "invariant": ["forall_keys(lambda n: n not in controlled_by or all(g in self._nodes and is_gate(self._nodes[g]) and n in self._nodes[g].targets and n in self._nodes for g in controlled_by[n]), controlled_by)", "all(not is_gate(gn) or all(t is END or t not in self._nodes or (t in controlled_by and gn.name in controlled_by[t]) for t in gn.targets) for gn in _seq0[:_i0])", "forall_keys(lambda n: n not in controlled_by or is_new(controlled_by[n]), controlled_by)", "forall_keys(lambda a: forall_keys(lambda b: a not in controlled_by or b not in controlled_by or a == b or controlled_by[a] is not controlled_by[b], controlled_by), controlled_by)", "is_new(controlled_by)", "is_gate(node)",
+                                                    "all(t is END or t not in self._nodes or (t in controlled_by and node.name in controlled_by[t]) for t in _seq[:_i])"]},
         ],
-        mustfail="len(result) == 0",
+        mustfail="forall_keys(lambda n: n not in result or len(result[n]) == 1, result)",
     ),
     IS + "_categorize_param": dict(
         props=["C08"],
